@@ -164,8 +164,8 @@ End Dom.
 Example encode_total_ex :
   in_domain round32_impl (modify ex_schema) ex_value = true /\
   (* out of the 'h' range: outside the domain *)
-  in_domain round32_impl (SLeaf TInteger (Some (BInt Ih)) false) (VInt 40000) = false /\
+  in_domain round32_impl (SLeaf TInteger (Some (BInt Ih)) 0%nat) (VInt 40000) = false /\
   (* 3.0 validates as a JSON integer but is not packable by an integer format *)
-  valid (SLeaf TInteger (Some (BInt Ih)) false) (VFloat 4613937818241073152) = true /\
-  in_domain round32_impl (SLeaf TInteger (Some (BInt Ih)) false) (VFloat 4613937818241073152) = false.
+  valid (SLeaf TInteger (Some (BInt Ih)) 0%nat) (VFloat 4613937818241073152) = true /\
+  in_domain round32_impl (SLeaf TInteger (Some (BInt Ih)) 0%nat) (VFloat 4613937818241073152) = false.
 Proof. vm_compute. auto. Qed.
